@@ -19,19 +19,35 @@ META = {
                   "the packages (schedule independent); with a cycle reachable from a package every final state carries a "
                   "(cyclic-dependency) error, so Load fails; with a reachable file that fails by itself (missing, "
                   "unreadable, syntax error, unknown project, run-time failure) every schedule still ends and ends with "
-                  "the failure published. "
+                  "the failure published.  From registry keys to files: the label a load statement is registered under "
+                  "(module.go loadModule, modelled in Loader/KeyModel.v on top of the C12 label model) is a function of the "
+                  "file it stands for (fetchModule) -- two load statements of any two modules, in any spelling (explicit "
+                  "kind, package relative to the loader's, redundant slashes, omitted or empty name, requirement alias or "
+                  "project path), that stand for the same file have the same key, and the invariant that makes this true is "
+                  "kept by every load -- so once per key is once per file. "
                   "The model is tied to module.go/project.go by running Load on generated projects "
                   "(chains, diamonds, shared helpers, 2/3/4-cycles, self-loads, random graphs; the same with failing "
                   "files shared by several loaders; the same shapes at sizes up to a few hundred modules / packages) "
                   "under seeded jitter and a rendezvous schedule that has every package mid-execution at once, and "
-                  "having the model replay every hook log event by event, plus direct oracles on the implementation.",
+                  "having the model replay every hook log event by event, plus direct oracles on the implementation.  "
+                  "Spelling family: the files are spread over package directories and a required project in the download "
+                  "cache, and every load statement names its file by a different text (half of the random graphs; a shared "
+                  "file under every text against the plain one and all at once; chains, diamonds and cycles with mixed "
+                  "texts; package files loaded by other files); the execution of a FILE is observed by its own first "
+                  "statement, not by the label the loader reports.  Registry keys: the real loadModule is called for "
+                  "thousands of (loading module, label text) pairs (every spelling, boundary texts, random texts); key and "
+                  "file are compared with the model and the oracle 'one file, one key; one key, one file' is evaluated.",
     "level_note": "Trusted: Coq kernel; atomicity of the Go critical sections (each takes exactly one mutex and does not "
                   "block inside, read off the source); Starlark's ExecFile modelled as 'run the load statements in order, "
                   "fail at the first failing load or at the file's own fault'; the log reordering of out-of-lock hop "
                   "events (python, within the window in which the read can have happened). Sizes are sampled (quick: up "
                   "to 130 deep / 65 packages side by side; thorough: 400 / 257), not proved for the Go code. Modules of "
-                  "remote projects that are in the build list (network fetch errors) are out of scope; a project that is "
-                  "not in the build list is covered.",
+                  "remote projects are covered as far as they are in the download cache (network fetches and their errors "
+                  "are out of scope); a project that is not in the build list is covered.  File identity is (project, "
+                  "package components, file name): that filepath.Join maps different such lists to different paths (names "
+                  "'.' and '..' excepted, which name directories), and that two project paths of the build list do not share "
+                  "a cache directory, is read off the source.  The conversion of string literals to byte lists in the key "
+                  "cases (s2b) is trusted.",
     "design_ref": "DESIGN.md §6 C06",
 }
 
@@ -531,12 +547,19 @@ def run(ctx):
                             "directly, through other modules, under a chain, under a diamond, beside and inside a cycle, two "
                             "at once, and on a package file, plus %d random graphs with 1-2 random faults; size family: "
                             "chains, cycles, packages side by side, load statements per file, combs and w x d private chains "
-                            "at sizes %s) x %d runs each (4 for the fault family, 3 for the size family, packages side by side up to 70 in the quick tier: first without jitter, the second with a "
+                            "at sizes %s; spelling family: half of the random graphs and %d enumerated scenarios with the files in "
+                            "several package directories and a required project, every load statement under a different label "
+                            "text, package files loaded by other files) x %d runs each (4 for the fault family, 3 for the size family, packages side by side up to 70 in the quick tier: first without jitter, the second with a "
                             "rendezvous that holds every package file (and every private chain at its deepest module) "
                             "mid-execution until all have started, then seeded Gosched/sleep jitter at hook points, "
                             "GOMAXPROCS=%s); non-trivial = at least one registry hit by a loading module (wait path "
                             "taken); distinct by graph and full hook log"
-                            % (len(by_scenario), nrand, nrand // 8, sizes, reps, runs[0]["procs"] if runs else "?"))
+                            % (len(by_scenario), nrand, nrand // 8, sizes,
+                               len({k for k in by_scenario if k[0].startswith("spell")}), reps, runs[0]["procs"] if runs else "?"))
+    ctx.coverage["correspondence"]["runs_with_spelled_labels"] = sum(1 for r in runs if spelled(r))
+    ctx.coverage["correspondence"]["distinct_label_texts"] = len({t for r in runs for ts in
+                                                                 list((r.get("raw") or {}).values()) + [p.get("raw") or [] for p in r["pkgs"]]
+                                                                 for t in ts})
     ctx.coverage["correspondence"]["rendezvous_runs"] = sum(1 for r in runs if r.get("rendezvous"))
     ctx.coverage["correspondence"]["rendezvous_timeouts"] = sum(r.get("rv_timeouts", 0) for r in runs)
     ctx.coverage["correspondence"]["runs_with_a_failing_file"] = sum(1 for r in runs if r.get("faults") or
